@@ -146,6 +146,35 @@ theorem palette_body_roundtrip (cols : List RGBA) (hp : ∀ c ∈ cols, c.validP
 example : ∀ c ∈ [(⟨0x40, 0x40, 0x40, 0x40⟩ : RGBA), ⟨0, 0, 0, 0⟩, ⟨1, 2, 3, 0xff⟩], c.validPremul = true := by
   decide
 
+/-- Headline (`palette_roundtrip` in DESIGN.md): the whole suggested-palette chunk.  For a palette that
+    differs from the default and consists of valid premultiplied colours, the chunk `Encoder.reset`
+    writes — length prefix, identifier 1, header byte, the explicit entries in the shortest common
+    format, trailing opaque black trimmed — is decoded by `decodeMetadataChunk` (from the default
+    palette, as `decode` does) to EXACTLY that palette, consuming exactly the chunk. -/
+theorem palette_roundtrip (pal : Palette) (hne : pal ≠ defaultPalette)
+    (hp : ∀ c ∈ pal.toList, c.validPremul = true) (m : Dec.Metadata)
+    (hm : m.palette = defaultPalette) (minMID : Nat) (hmin : minMID ≤ 1) (rest : Bytes) :
+    ∃ its, Dec.decodeMetadataChunk m minMID
+        (Enc.encodeNatural (Enc.paletteChunk pal).length ++ Enc.paletteChunk pal ++ rest) =
+      (its, .ok ({ m with palette := pal }, 2, rest)) :=
+  paletteChunk_decodes pal (explicitCount_ne_zero pal hne) hp m hm minMID hmin rest
+example : (defaultPalette.set6 3 ⟨0x40, 0x40, 0x40, 0x40⟩) ≠ defaultPalette ∧
+    (∀ c ∈ (defaultPalette.set6 3 ⟨0x40, 0x40, 0x40, 0x40⟩).toList, c.validPremul = true) ∧
+    Enc.paletteChunk (defaultPalette.set6 3 ⟨0x40, 0x40, 0x40, 0x40⟩) =
+      [0x02, 0xc3, 0, 0, 0, 0xff, 0, 0, 0, 0xff, 0, 0, 0, 0xff, 0x40, 0x40, 0x40, 0x40] := by decide
+
+/-- **SetCReg instruction round trip**: the opcode byte `adj | base` and payload `Encoder.setCReg`
+    writes for a constructible colour are decoded by `Dec.decodeStyling` to the call
+    `SetCReg(adj, incr, c)` with exactly that colour, consuming exactly opcode and payload
+    (`a = 7` is the incrementing form). -/
+theorem creg_instruction_roundtrip (c : Color) (hwf : c.WF) (a : UInt8) (ha : a ≤ 7) (rest : Bytes) :
+    ∃ l0 l1, Dec.decodeStyling ((a ||| (Enc.cregForm c).1) :: ((Enc.cregForm c).2 ++ rest)) =
+      ([.line l0, .line l1, .call (.setCReg (if a == 7 then 0 else a) (a == 7) c)],
+       .ok (.styling, rest)) ∧
+      l0.bytes = [a ||| (Enc.cregForm c).1] ∧ l1.bytes = (Enc.cregForm c).2 ∧ l1.kind = .color c :=
+  setCReg_instruction c hwf a ha rest
+example : (Color.blendColor 0x40 0x7f 0x80).WF ∧ (3 : UInt8) ≤ 7 := by decide
+
 /-! ## the tables, for every possible byte pattern -/
 
 /-- 1-byte form, `x < 125`: opaque, channels are the base-5 digits of `x` (red most significant)
@@ -240,14 +269,11 @@ example : ((Ivg.decodeColor1 126).resolve1 defaultPalette defaultPalette).validP
 /-!
 ## Not proved in this file
 
-* The instruction framing of `SetCReg` (opcode byte `adj | base`, `decodeStyling` dispatch) is covered
-  by `creg_colour_roundtrip` only up to `decoderFor`, which restates the `match` of
-  `Dec.decodeStyling` on `(opcode - 0x80) >>> 3`; the end-to-end statement over `Encoder`/`decode`
-  belongs to C01.
-* Whole-palette round trip including the header byte, the chunk length and trailing-black trimming
-  (`explicitCount`): `palette_body_roundtrip` covers the entry loop for the list of explicit entries
-  in each format; that `setFrom defaultPalette 0 (pal.toList.take n)` equals `pal` when the dropped
-  tail is opaque black is not proved here.
+* The end-to-end statement over `Encoder` histories and `Dec.decode` (that `Encoder.setCReg` /
+  `Encoder.reset` append exactly these bytes at an instruction boundary) belongs to C01;
+  `creg_instruction_roundtrip` and `palette_roundtrip` are the per-instruction / per-chunk facts it needs.
+* A palette with a NON-premultiplied entry is (by design of the decoder) not round-tripped: the entry is
+  delivered as opaque black (`palette_entry_delivered`).
 -/
 
 end Ivg.Props.C09
@@ -257,9 +283,10 @@ end Ivg.Props.C09
   Ivg.Props.C09.form4_roundtrip, Ivg.Props.C09.blend_roundtrip, Ivg.Props.C09.creg_form_total,
   Ivg.Props.C09.creg_colour_roundtrip, Ivg.Props.C09.colour_no_overread, Ivg.Props.C09.colour_truncated,
   Ivg.Props.C09.palette_entry_roundtrip, Ivg.Props.C09.palette_entry_delivered,
-  Ivg.Props.C09.palette_body_roundtrip,
+  Ivg.Props.C09.palette_body_roundtrip, Ivg.Props.C09.palette_roundtrip,
+  Ivg.Props.C09.creg_instruction_roundtrip,
   Ivg.Props.C09.table1_opaque, Ivg.Props.C09.table1_special, Ivg.Props.C09.table1_palette,
   Ivg.Props.C09.table1_creg, Ivg.Props.C09.table1_wf, Ivg.Props.C09.table2, Ivg.Props.C09.table34,
   Ivg.Props.C09.blend_formula, Ivg.Props.C09.blend_resolve, Ivg.Props.C09.blend_ends,
   Ivg.Props.C09.blend_resolve_ends, Ivg.Props.C09.blend_mono, Ivg.Props.C09.blend_premul,
-  Ivg.Gen.Tie.dc1Table_tie]
+  Ivg.Gen.Tie.dc1Table_tie, Ivg.Gen.Tie.drawOps_tie, Ivg.Gen.Tie.magic_tie]
